@@ -18,7 +18,30 @@ def value_xml(v):
     name = type(v).__name__
     if name in ("UADouble", "UAFloat") and isinstance(v.value, float) and math.isfinite(v.value):
         return '<%s xmlns="http://opcfoundation.org/UA/2008/02/Types.xsd">%r</%s>' % (name[2:], v.value, name[2:])
-    return v.xml_encode(include_xmlns=True)
+    text = v.xml_encode(include_xmlns=True)
+    h = sum(text.encode("utf-8")) % 8
+    if name == "UAString" and isinstance(v.value, str) and (h == 1 or "preserve" in v.value) and v.value and v.value == v.value.strip() and "<String" in text[:8]:
+        # white space around the text, explicitly preserved for XML processors (the value parser strips strings whatever xml:space says)
+        return text.replace("<String", '<String xml:space="preserve"', 1).replace(">", ">  ", 1)[::-1].replace("<"[::-1], "  <"[::-1], 1)[::-1] if text.endswith("</String>") else text
+    if h in (2, 3) or "prefixed" in text:
+        # the same fragment with the types namespace bound to a prefix instead of being the default namespace (same infoset)
+        try: return prefixed_fragment(text)
+        except Exception: return text
+    return text
+
+def prefixed_fragment(text, prefix="uax"):
+    import lxml.etree as ET
+    NS = "http://opcfoundation.org/UA/2008/02/Types.xsd"
+    root = ET.fromstring(text)
+    def conv(el, parent=None):
+        new = ET.Element(el.tag, attrib=dict(el.attrib), nsmap={prefix: NS}) if parent is None else ET.SubElement(parent, el.tag, attrib=dict(el.attrib))
+        new.text = el.text; new.tail = el.tail
+        for ch in el:
+            if not isinstance(ch.tag, str): raise ValueError("comment or processing instruction")
+            conv(ch, new)
+        return new
+    if not (isinstance(root.tag, str) and root.tag.startswith("{" + NS + "}")): return text
+    return ET.tostring(conv(root), encoding="unicode")
 
 def key_of_nid(nid, namespaces):
     ns = int(nid[0])
@@ -293,9 +316,13 @@ def run(ctx, prop):
     n_cases = {"quick": 45, "thorough": 900}[ctx.tier]
     try:
         for ci in range(n_cases):
+            vlib.pandas_mode(ci)
             # the third and fourth case are medium-sized: 128..255 and 256+ distinct NodeIds in one parse (ids beyond the range of the narrow integer types)
             g, ds = make_case(rng, ctx.quick(), size={2: rng.randint(120, 200), 3: rng.randint(260, 300), 6: "split"}.get(ci), wide=True if ci == 4 else None, slash_twin=True if ci == 5 else None)
             files, lay = render_set(ds, rng)
+            files_plain = files
+            # every third document set is spelled with general entities of an internal DTD subset (same infoset; the model reads the plain spelling)
+            if ci % 3 == 1: files = [(n, docs.entityfy(t, random.Random(ci * 131 + k))) for k, (n, t) in enumerate(files)]
             origs = originals_of(g, ds)
             vts = [n["value"] for _, d, _ in ds for n in d["nodes"] if n.get("value")]
             # caller-supplied namespace lists
@@ -310,7 +337,7 @@ def run(ctx, prop):
             for caller in callers:
                 out, _ = parsecmp.impl_parse(work, files, caller)
                 reqs.append(parsecmp.model_request(work, [(n, d) for n, d, _ in ds], caller, vts)); meta.append(("in-domain", ci, caller, out, None))
-                treqs.append(parsecmp.model_request_text(work, files, caller, vts))
+                treqs.append(parsecmp.model_request_text(work, files_plain, caller, vts))
                 outs.append((caller, out))
                 feats = ["files=%d" % len(ds), "prefix=%s" % lay["prefix"], "caller" if caller else "no-caller"]
                 nontriv = len(ds) > 1 and any(l[1:] != sorted(l[1:]) for _, _, l in ds) or bool(vts) or bool(caller)
